@@ -230,6 +230,39 @@ async def sc_tunnel(loop: Any, env: Env) -> None:
     await asyncio.sleep(7.0)
 
 
+async def sc_hidden(loop: Any, env: Env) -> None:
+    """
+    Hidden services: the observed node seeds a swarm (introduction point, rendezvous, e2e link, data both ways).
+    """
+    from .tunnelsim import HiddenWorld
+    w = HiddenWorld(loop, 6, net=env.net)
+    env.nodes.extend(w.nodes)
+    env.extra_cleanup.append(w.trace.uninstall)
+    seeder, downloader = w.nodes[0], w.nodes[1]
+    env.target(seeder, seeder.overlay)
+    random.seed(4)
+    info_hash = b"\x33" * 20
+    got: list = []
+    env.t(lambda: seeder.overlay.join_swarm(info_hash, 1, lambda addr: got.append(addr), seeding=True))
+    downloader.overlay.join_swarm(info_hash, 1, lambda addr: got.append(addr), seeding=False)
+    await env.ta(lambda: seeder.overlay.create_introduction_point(info_hash), 30)
+    await asyncio.sleep(1.0)
+    downloader.overlay.build_tunnels(1)
+    await asyncio.sleep(1.0)
+    try:
+        await asyncio.wait_for(downloader.overlay.do_peer_discovery(), 30)
+    except (Exception, asyncio.CancelledError):  # noqa: BLE001
+        pass
+    await asyncio.sleep(3.0)
+    d = [c for c in downloader.overlay.circuits.values() if c.ctype == "RP_DOWNLOADER" and c.e2e]
+    s = [c for c in seeder.overlay.circuits.values() if c.ctype == "RP_SEEDER" and c.hs_session_keys is not None]
+    if d:
+        downloader.overlay.send_data(d[0].hop.address, d[0].circuit_id, ("0.0.0.0", 0), ("0.0.0.0", 0), b"d3:e2ee")
+    if s:
+        env.t(lambda: seeder.overlay.send_data(s[0].hop.address, s[0].circuit_id, ("0.0.0.0", 0), ("0.0.0.0", 0), b"d4:backe"))
+    await asyncio.sleep(12.0)
+
+
 async def sc_pex(loop: Any, env: Env) -> None:
     from ipv8.messaging.anonymization.pex import PexCommunity
     nodes = [env.node() for _ in range(3)]
@@ -330,6 +363,7 @@ SCENARIOS: dict[str, Callable] = {
     "discovery": sc_discovery,
     "dht": sc_dht,
     "tunnel": sc_tunnel,
+    "hidden": sc_hidden,
     "pex": sc_pex,
     "identity": sc_identity,
     "attestation": sc_attestation,
